@@ -6,11 +6,12 @@ files to /tmp/st/<id>.out (VERIF_OUT).  Worktree and output are removed afterwar
 import json, os, re, shutil, subprocess, sys
 from concurrent.futures import ThreadPoolExecutor
 ROOT = os.path.dirname(os.path.dirname(os.path.abspath(__file__)))
-args = sys.argv[1:]; J = 4; tier = "quick"; ids = []
+args = sys.argv[1:]; J = 4; tier = "quick"; ids = []; group = None
 while args:
     a = args.pop(0)
     if a == "-j": J = int(args.pop(0))
     elif a == "--tier": tier = args.pop(0)
+    elif a == "--group": group = args.pop(0)
     else: ids.append(a)
 
 def one(sid):
@@ -27,13 +28,13 @@ def one(sid):
         res = {}
         for p in meta["property"].split(","):
             env = dict(os.environ, VERIF_REPO=wt, VERIF_OUT=out)
-            r = subprocess.run([os.path.join(ROOT, "vcheck"), p, "--tier", tier], capture_output=True, text=True, cwd=ROOT, env=env)
+            r = subprocess.run([os.path.join(ROOT, "vcheck"), p, "--tier", tier] + (["--group", group] if group else []), capture_output=True, text=True, cwd=ROOT, env=env)
             vio = [l for l in r.stdout.splitlines() if l.startswith("VIOLATION")]
             und = [l for l in r.stdout.splitlines() if l.startswith("UNDECIDED")]
             res[p] = {"rc": r.returncode, "violations": [re.sub(r" replay=\S+", "", v)[:300] for v in vio][:8], "undecided": [u[:300] for u in und][:4]}
-        meta.setdefault("runs", {})[tier] = res
+        meta.setdefault("runs", {})[tier + (":" + group if group else "")] = res
         det = [p for p, o in res.items() if o["rc"] == 1]
-        meta["detected_by"] = sorted(set((meta.get("detected_by") or []) + [f"{p}:{tier}" for p in det])) or None
+        meta["detected_by"] = sorted(set((meta.get("detected_by") or []) + [f"{p}:{tier}" + (f" ({group})" if group else "") for p in det])) or None
         json.dump(meta, open(os.path.join(d, "meta.json"), "w"), indent=1)
         return sid, " ".join(f"{p}: rc={o['rc']} vio={len(o['violations'])} und={len(o['undecided'])}" + ("".join("\n      " + v[:200] for v in o['violations'][:3] + o['undecided'][:2])) for p, o in res.items())
     finally:
